@@ -250,7 +250,7 @@ fn solve_once(solver: &mut Solver<Uni>, prob: &Value, want_dump: bool) -> Value 
                 let mut gv = Vec::new();
                 let _ = cg.graphviz(&mut gv, solver.provider(), true);
                 json!({"nodes": nodes, "edges": edges, "root": cg.root_node.index(),
-                       "unresolved": cg.unresolved_node.map(|n| n.index()), "message_len": msg.len(), "graphviz_len": gv.len()})
+                       "unresolved": cg.unresolved_node.map(|n| n.index()), "message_len": msg.len(), "message_lines": msg.lines().count(), "graphviz_len": gv.len()})
             }));
             match g {
                 Ok(g) => out["graph"] = g,
